@@ -559,11 +559,15 @@ func parseComment(l *syntax.Lexer) (bool, syntax.Token, error) {
 		// parse ：after 「注」
 		if l.GetCurrentChar() == Colon {
 			isComment = true
-			switch l.Next() {
+			// only an opening quote is consumed here; any other character (a line break above all) is
+			// left to the content loop, which would otherwise never look at it
+			switch l.Peek() {
 			case LeftDoubleQuoteI:
+				l.Next()
 				multiCommentType = commentTypeQuoteI
 				quoteCount = 1
 			case LeftDoubleQuoteII:
+				l.Next()
 				multiCommentType = commentTypeQuoteII
 				quoteCount = 1
 			default:
